@@ -20,6 +20,8 @@ from . import c03, c16
 
 import itertools
 
+from .c03 import run_wrong_cert  # noqa: F401,E402
+
 PROP = 'C12'
 
 
@@ -442,6 +444,9 @@ def run_pairs(params, known):
 def scenarios(tier):
     out = [dict(name='block-%s' % b, kind='enum', runner='run_block', params=dict(name='block-%s' % b, block=b), weight=1)
            for b in ('bib', 'bcb', 'none')]
+    # asymmetric keys: valid signatures by holders of certificates that do not bind the key to the security source
+    out.append(dict(name='sign1-wrong-certificate', kind='enum', runner='run_wrong_cert',
+                    params=dict(name='sign1-wrong-certificate', pems=c03.make_pems(), prop=PROP), weight=1))
     if tier == 'thorough':
         parts = 8
         for b in ('bib', 'bcb'):
@@ -453,6 +458,7 @@ def scenarios(tier):
 
 ASSUMPTIONS = [
     'trusted base: pycose and cryptography primitives',
+    'wrong key, asymmetric case (shared with C03): COSE_Sign1 by x5chain under four certificates that do not bind the key to the security source (other NODE-ID, no SAN, DNS SAN only, issuer not trusted)',
     'valid integrity blocks are produced by the independent HMAC/AAD producer, valid confidentiality blocks by the real transmit chain (COSE_Encrypt0)',
     'thorough tier: every pair of different malformations on the same block whose edits commute and both remain visible (an edit that rewrites what the other damaged could repair it; such pairs are skipped), and every malformation with a wrong key and with no key',
     '37 (BIB) / 32 (BCB) malformations applied to the independently decoded structure; x right/wrong/no key x accept on/off x deletion report requested or not',
